@@ -22,7 +22,9 @@ func uuIs(err error) []string {
 func uuTyped(err error) bool {
 	var a *uu.ParseError[string]
 	var b *uu.ParseError[[]byte]
-	return errors.As(err, &a) || errors.As(err, &b)
+	var c *uu.ParseError[myStr]
+	var d *uu.ParseError[myBytes]
+	return errors.As(err, &a) || errors.As(err, &b) || errors.As(err, &c) || errors.As(err, &d)
 }
 
 func nibbles(id uu.ID) []int {
@@ -100,9 +102,14 @@ func init() {
 		var id uu.ID
 		var err error
 		p := try(func() {
-			if str(e["T"]) == "s" {
+			switch str(e["T"]) {
+			case "s":
 				id, err = uu.DefaultParser(string(in), rule)
-			} else {
+			case "S":
+				id, err = uu.DefaultParser(myStr(in), rule)
+			case "B":
+				id, err = uu.DefaultParser(myBytes(reused(in)), rule)
+			default:
 				id, err = uu.DefaultParser(reused(in), rule)
 			}
 		})
